@@ -199,7 +199,9 @@ CLAIMED.update({
         "side-effect-free operand x written twice and constants a, b such that no value lies below a and above b (the quantified claim is part of lessAndGreater's postcondition and is carried "
         "to the Warn call); nilValReturn's 'always nil' only when the returned expression is the side-effect-free operand compared with the predeclared nil in the condition and the return is "
         "the only statement of the branch; caseOrder's 'must go before' only when the case type implements the interface of a case listed earlier (loop invariant over the list of seen cases) "
-        "and never for case nil; dupSubExpr only for one side-effect-free expression written twice. Rule data: sloppyLen's three claims and offBy1's 'always panics' are proved as SMT lemmas "
+        "and never for case nil; dupSubExpr only for one side-effect-free expression written twice, and for the six NaN-sensitive operators of its table only when the operand's underlying type "
+        "is not a float or complex basic type (resultIsFloat's postcondition, carried to the Warn call; the table's content is built by a constructor loop and is assumed). "
+        "nilValReturn.becomesInterface is carried as an abstraction only (what it computes over grouped result fields is not specified). Rule data: sloppyLen's three claims and offBy1's 'always panics' are proved as SMT lemmas "
         "about the builtin len (non-negative; index in range iff 0 <= i < len), and the rules must restrict the callee to the builtin object, the operand to a pure expression and to slice types "
         "(generator-decided obligations on the precompiled rule data). The semantic bridge (syntactically equal side-effect-free expressions have equal values; constants evaluate to their "
         "values) is theory go-semantics, assumed. Three defects were found and repaired (badCond purity, caseOrder nil, nilValReturn shadowed nil, sloppyLen/offBy1 user-defined len). dupArg and "
